@@ -64,7 +64,7 @@ fn snapshot(sm: &StateMachine) -> String {
         )
     });
     format!(
-        "state={:?}|source={:?}|mf={:?}|pf={:?}|mfe={:?}|pfe={:?}|dl={:?}|mi={:?}|cfp={:?}|hfp={:?}|mlc={:?}|bkc={:?}|ml={:?}|pl={:?}|ob={:?}|syn={:?}|hl={}|lnd={:?}|mco={:?}|mca={:?}|mct={:?}|mcn={:?}/{:?}/{:?}",
+        "state={:?}|source={:?}|mf={:?}|pf={:?}|mfe={:?}|pfe={:?}|dl={:?}|mi={:?}|cfp={:?}|hfp={:?}|mlc={:?}|bkc={:?}|ml={:?}|pl={:?}|ob={:?}|syn={:?}|hl={}|lnd={:?}|mco={:?}|mca={:?}|mct={:?}|mcn={:?}/{:?}/{:?}|ibp={:?}|iss={}|ro={}",
         sm.state,
         sm.source,
         sm.minus_file,
@@ -89,6 +89,9 @@ fn snapshot(sm: &StateMachine) -> String {
         p.merge_conflict_commit_names[MergeConflictCommit::Ours],
         p.merge_conflict_commit_names[MergeConflictCommit::Ancestral],
         p.merge_conflict_commit_names[MergeConflictCommit::Theirs],
+        sm.in_binary_patch,
+        sm.in_submodule_section,
+        p.run_overflowed,
     )
 }
 
